@@ -331,7 +331,20 @@ func (g *Gen) enterBlock(b *ssa.BasicBlock) Heap {
 		preds = append(preds, p)
 		conds = append(conds, g.edgeCond(p, b))
 	}
-	g.S.assert(eq(rn, or(conds...)))
+	if g.loops[b] != nil {
+		// a loop head is a cut point: "reached in some iteration" implies, but is not implied by, "entered". Obligations on
+		// entry (inv-init, entry_assert) are guarded by the entry condition and must not see the head assumptions.
+		en := qsym(fmt.Sprintf("enter.b%d", b.Index))
+		g.S.declare(en, "Bool")
+		g.S.assert(eq(en, or(conds...)))
+		g.S.assert(imp(rn, en))
+		if g.loopEntry == nil {
+			g.loopEntry = map[*ssa.BasicBlock]string{}
+		}
+		g.loopEntry[b] = en
+	} else {
+		g.S.assert(eq(rn, or(conds...)))
+	}
 	g.reach[b] = rn
 	h := g.mergeHeaps(b, preds, conds)
 	li := g.loops[b]
@@ -537,6 +550,10 @@ func (g *Gen) enterLoop(li *loopInfo, h Heap, preds []*ssa.BasicBlock, conds []s
 		g.assumeAllocated(hh, g.vals[phi])
 	}
 	guard := g.reach[b]
+	entryGuard := guard
+	if en, ok := g.loopEntry[b]; ok {
+		entryGuard = en
+	}
 	// obligations on entry + assumptions at head
 	li.entryVals = entryVals
 	envEntry := g.newEnv(h, g.entryHeap, b)
@@ -551,7 +568,7 @@ func (g *Gen) enterLoop(li *loopInfo, h Heap, preds []*ssa.BasicBlock, conds []s
 				g.unsupported("%s:%d: invariant %q: %v", shortFile(c.File), c.Line, c.Text, err)
 				continue
 			}
-			g.oblige("inv-init", fmt.Sprintf("loop%d[%d] %s", li.ordinal, k, c.Text), c.Text, guard, t, b.Instrs[0].Pos())
+			g.oblige("inv-init", fmt.Sprintf("loop%d[%d] %s", li.ordinal, k, c.Text), c.Text, entryGuard, t, b.Instrs[0].Pos())
 		}
 	}
 	if li.spec != nil && g.mode.Contracts {
@@ -561,7 +578,7 @@ func (g *Gen) enterLoop(li *loopInfo, h Heap, preds []*ssa.BasicBlock, conds []s
 				g.unsupported("%s:%d: entry_assert %q: %v", shortFile(c.File), c.Line, c.Text, err)
 				continue
 			}
-			g.oblige("entry-assert", fmt.Sprintf("loop%d[%d] %s", li.ordinal, k, c.Text), c.Text, guard, t, b.Instrs[0].Pos())
+			g.oblige("entry-assert", fmt.Sprintf("loop%d[%d] %s", li.ordinal, k, c.Text), c.Text, entryGuard, t, b.Instrs[0].Pos())
 		}
 	}
 	if li.spec != nil {
@@ -589,7 +606,7 @@ func (g *Gen) enterLoop(li *loopInfo, h Heap, preds []*ssa.BasicBlock, conds []s
 			}
 			return g.vals[p]
 		}
-		o := g.oblige("auto-init", c.id, c.id, guard, c.expr(phiEntry, h), b.Instrs[0].Pos())
+		o := g.oblige("auto-init", c.id, c.id, entryGuard, c.expr(phiEntry, h), b.Instrs[0].Pos())
 		o.Clause = "auto"
 		g.S.assert(imp(guard, c.expr(phiHead, hh)))
 		g.candInv[b] = append(g.candInv[b], c)
